@@ -269,3 +269,48 @@ def _validate_contract():
 
 
 _validate_contract()
+
+
+# ---------------------------------------------------------------------------------------------- cache coherence (C18 c)
+def _opt_same(a, b, same):
+    return Or(And(is_none(a), is_none(b)), And(Not(is_none(a)), Not(is_none(b)), same(val(a), val(b))))
+
+
+def _cache_contracts():
+    """The two writers of parsed fields outside parse(): after them no cached rendering survives.
+    _updateParameters(value): the parameter text is the value, the cached dictionary and the cached command string are
+    dropped, nothing else is written.  lineNumber setter: the line number is None / int(value); when it changed, the cached
+    command string is dropped; nothing else is written."""
+    from pyvc.contracts import Contract
+    c = REGISTRY.contracts.setdefault(GP + "_updateParameters", Contract(GP + "_updateParameters"))
+
+    def pre(b):
+        p = mk_full_parser(b)
+        if not getattr(b, "native", False):
+            p.fields["_parameterDict"] = b.opaque("cached parameter dictionary") if b.choose(2, "dictionary cached?") else None
+        return {"self": p, "args": {"value": b.optstr("value")}}
+    c.pre(pre)
+    c.modifies("self._parameters", "self._parameterDict", "self._commandString")
+
+    def post(f):
+        p = f.self
+        if getattr(f, "native", False):
+            return p._parameters == f.a.value and p._parameterDict is None and p._commandString is None
+        return And(_opt_same(p._parameters, f.a.value, ops.str_eq), p._parameterDict is None,
+                   p._commandString is None or is_none(p._commandString))
+    c.ensures("C18.parameter-caches-dropped", post, props=("C18", "C19", "C06", "C07"))
+
+    c2 = REGISTRY.contracts.setdefault(GP + "lineNumber.setter", Contract(GP + "lineNumber.setter"))
+    c2.pre(lambda b: {"self": mk_full_parser(b), "args": {"value": b.optint("value")}})
+    c2.modifies("self._lineNumber", "self._commandString")
+
+    def post2(f):
+        p, o, v = f.self, f.old.self, f.a.value
+        if getattr(f, "native", False):
+            return p._lineNumber == v and (o._lineNumber == v or p._commandString is None)
+        dropped = (p._commandString is None) or is_none(p._commandString)
+        return And(_opt_same(p._lineNumber, v, eq), Or(_opt_same(o._lineNumber, v, eq), dropped))
+    c2.ensures("C18.line-number-stored-and-cache-dropped-on-change", post2, props=("C18",))
+
+
+_cache_contracts()
